@@ -2,7 +2,7 @@
    [conv_implicit] mirrors the explicit-specifier of the converting constructor; the theorem says that whenever
    the language lets the conversion happen silently (and the requires-clause / the Mandates of [mdspan.extents]
    hold) the destination has exactly the extents of the source. *)
-From Tetl Require Import Lib.Base C19.Model C19.Spec C19.ProofsArith C19.ProofsExt.
+From Tetl Require Import Lib.Base C19.Slices C19.Model C19.Spec C19.ProofsArith C19.ProofsExt.
 Local Open Scope Z_scope.
 Ltac Zify.zify_post_hook ::= Z.to_euclidean_division_equations.
 
@@ -72,3 +72,22 @@ Theorem explicit_conversion_can_lose :
   /\ (conv_implicit i32 [Some 3] i32 [None] = false
       /\ extents_list i32 (ext_convert i32 [Some 3] i32 (ext_from_pack i32 [None] [5])) = [3]).
 Proof. vm_compute. repeat split; reflexivity. Qed.
+
+(** * [mdspan.sub.helpers] first_ / last_ *)
+(* under the precondition of [mdspan.sub.extents] the helpers return the standard's values without overflow, they
+   delimit a range inside the source dimension, and its length is the extent submdspan_extents keeps *)
+Theorem sub_first_last_spec : forall t x s, wf_ity t -> 0 <= x <= imax t -> slice_ok s x ->
+  sub_first t s = first_ s /\ sub_last t x s = Some (last_ x s)
+  /\ 0 <= first_ s <= last_ x s /\ last_ x s <= x
+  /\ match s with
+     | SlIndex _ => last_ x s - first_ s = 1
+     | _ => [last_ x s - first_ s] = sub_shape [s] [x]
+     end.
+Proof.
+  intros t x s Hwf Hx Hok. destruct s as [|k|a b|a b]; cbn [slice_ok sub_first sub_last first_ last_ sub_shape] in *.
+  - rewrite cast_id by assumption. repeat split; try lia. f_equal. lia.
+  - rewrite cast_id by (try assumption; lia). unfold aadd. rewrite aop_small by (try assumption; lia).
+    repeat split; lia.
+  - rewrite !cast_id by (try assumption; lia). repeat split; lia.
+  - rewrite !cast_id by (try assumption; lia). repeat split; lia.
+Qed.
